@@ -259,8 +259,8 @@ func doReplay(e Engine, cfg *WorkerCfg) *ReplayOutcome {
 	}
 	o.SameDigest = res.Log.Digest() == rf.LogSHA256
 	tr := res.Log.Lines
-	if len(tr) > 400 {
-		tr = tr[len(tr)-400:]
+	if len(tr) > 4000 {
+		tr = tr[len(tr)-4000:]
 	}
 	o.Trace = tr
 	return o
